@@ -13,6 +13,14 @@ NOTES = {
  "C14-m1": "needed fractional weights for the floating-point weight type", "C14-m2": "needed a refusal operand with equal cell count and another shape",
  "C15-m1": "needed the copy-assignment step", "C18-m2": "needed world `c18s` (inclusion probability over simulator-owned draw sequences)",
  "C19-m1": "needed the C++14 build (library's own optional) and global-new tracking; **obsolete since fix 2200df4** (optional::emplace now destroys first, the change no longer leaks)",
+ # round 7
+ "C20-m9": "needed an allocation failure injected inside `update()` on the non-compacting path (fault kind `alloc_fail_in_update`); the model follows get_n() and the stated invariants are judged on the post-fault state",
+ "C11-m11": "needed the image of the fresh (empty) object of the same family/configuration/variant enumerated in every run (empty images take flag-dependent reader paths)",
+ "C19-m11": "needed objects built in two allocator arenas (instances compare unequal; a quarter of the runs) and the fingerprint `released-through-unequal-allocator-instance`",
+ "C13-m11": "needed the union object itself reset and used again (`union_reset_and_reused`) in the Tuple world", "C14-m11": "needed images written behind a caller-reserved header (`serialize(h)`, h in 1..40)",
+ "C16-m11": "needed the rule 'a sample of a union result is never lighter than it was in its input sketch'",
+ "C10-m11": "needed world `c10qq` (classic quantiles images of a foreign writer: compact, ordered flag clear, base buffer in arrival order; serial version 2)",
+ "C17-m11": "as built (after the non-dyadic value patterns)", "C15-m11": "NOT caught: needs a filter above 2^32 bits (512 MiB of bit array) viewed through wrap/deserialize; the tiers stop at 2^20 bits", "C12-m11": "NOT caught: needs keys placed slot by slot in the hash map (adversarial placement through the inverse of the fmix64 finalizer); bounds still bracket the truth, only the size of the maximum error is affected",
  # round 3
  "C03-m4": "needed the `flat_fill` step (one input per slot, all with the same register value)",
  "C08-m3": "needed oracle 4: stride offsets of the classic down-sampling merge enumerated by scripting the 64-bit draw",
